@@ -127,7 +127,7 @@ def K(prefix, **kw):
     return d
 
 _PT = dict(extra=["-Z", "stubbing", "-Z", "unstable-options", "--cbmc-args", "--max-field-sensitivity-array-size", "512"],
-           own_labels_only=True, jobs=12, mem_gb=16, harness_timeout=1200,
+           own_labels_only=True, jobs=14, mem_gb=16, harness_timeout=1200,
            stubs=["S-zero: PageTable::zero -> whole-table assignment (the real zero() is verified in C08); native replays run the real one",
                   "S-ptr (ptr_*_nr only): VirtAddr::as_ptr -> 4-level hardware walk of the pool for the accessed virtual address (software MMU)"],
            trusted_base=["rustc->Kani->CBMC", "CaDiCaL", "overlay O1-O4", "hw_walk oracle (harness/src/structures/paging/mapper/verif_mapper/mod.rs, from SDM vol.3A 4.5)"],
@@ -138,15 +138,18 @@ _PT = dict(extra=["-Z", "stubbing", "-Z", "unstable-options", "--cbmc-args", "--
 
 def PT(prop, own, **kw):
     d = K(own, **_PT)
-    d["filters_quick"] = ["pt_", "ptr_", "ptq_", own + "_"] + (["c10_range_p1_unaligned_window"] if prop == "C01" else [])
-    d["filters_thorough"] = ["pt_", "ptt_", "ptr_", "ptrt_", "ptq_", "ptqt_", own + "_", own + "t_"] + (["c10_range_p1_unaligned_window"] if prop == "C01" else [])
+    # clean_up harnesses carry VP[C01] (translations preserved) and VP[C09] (only table frames touched) obligations too
+    extra_q = {"C01": ["c10_range_p1_unaligned_window"], "C09": ["c10_range_two_p3_slots_huge3", "c10_rec_range_two_p3_slots_huge3"]}.get(prop, [])
+    extra_t = {"C01": ["c10_", "c10t_"], "C09": ["c10_", "c10t_"]}.get(prop, [])
+    d["filters_quick"] = ["pt_", "ptr_", "ptq_", own + "_"] + extra_q
+    d["filters_thorough"] = ["pt_", "ptt_", "ptr_", "ptrt_", "ptq_", "ptqt_", own + "_", own + "t_"] + extra_t
     d.update(kw)
     return d
 
 PROPS = {
     "C01": PT("C01", "c01", bounds="one mapper call (map_to_with_table_flags / unmap / update_flags / translate, translate_addr, translate_page; 3 page sizes) from every pre-state of 179 (quick) / about 690 (thorough) concrete-skeleton instances x all symbolic contents, for MappedPageTable (122/484 instances) and RecursivePageTable (57/202); pool of 8 table frames; histories only by induction on WF over the instance family (no multi-call sequences, not for all addresses); clean_up preservation via one C10 instance"),
     "C02": PT("C02", "c02", bounds="as C01; every allocator failure position (0..3) is its own instance"),
-    "C10": dict(K("c10", **_PT), own_labels_only=True, jobs=4, mem_gb=24, harness_timeout=2400, harness_timeout_thorough=5400, total_timeout=9000,
+    "C10": dict(K("c10", **_PT), own_labels_only=True, jobs=6, mem_gb=24, harness_timeout=2400, harness_timeout_thorough=5400, total_timeout=9000,
                 bounds="MappedPageTable: 4 (quick) / 15 (thorough), RecursivePageTable: 1 / 4 concrete skeleton x range instances (<= 2 populated entries per table, <= 7 tables), symbolic leaf contents decide which tables are empty; loops fully unrolled (unwind 514)",
                 assumptions=["regime R2- as C01 (concrete skeleton, symbolic level-1 leaves)", "RecursivePageTable::clean_up through the S-ptr stub (software MMU), `_nr`; the recursive slot must stay untouched and nothing reached through it may be freed"]),
     "C09": PT("C09", "c09", bounds="as C01; frame rule on 24 witness slots per instance (every written slot, neighbours, slots 0/511 of free frames)"),
